@@ -26,7 +26,7 @@ BYLINE = ["collect_by_line", "next_by_line", "fast_forward_by_line"]
 def _work(args):
     seed, gi, quick = args
     rng = random.Random(seed * 100003 + gi)
-    grp = gen.make_group(rng, gi, groups=("core", "control", "validity"))
+    grp = gen.make_group(rng, gi, groups=("core", "control", "validity"), modes=rng.random() < 0.4)      # members with return-mode / unmatched-mode
     members = grp["members"]
     order = list(range(len(members)))
     rng.shuffle(order)
